@@ -150,6 +150,23 @@ def oracle (toks : List String) (res : List String) : Option String := do
     let rest := ocSum (setAt (setAt (old.take 20) 2 [0, 0]) 10 [0, 0]) 0
     pure (if d.totalLength != tl then "bad ipv4-partial-length"
           else if p == rest && old.length ≥ 20 && (old.getD 0 0) % 16 == 5 then chk (verifies (b.take 20) 0) "ipv4-partial-checksum" else "ok")
+  | ["tcppart", h, p, l, sq, ak, fl, w], [newh] =>
+    -- EncodePartial stores the complement of the one's-complement sum of: the partial sum it was given, the length,
+    -- the flags as a 16-bit word, sequence and acknowledgement number and the window - so that these, together
+    -- with the stored checksum, always sum to 0xffff (whatever was partial, the segment then verifies iff partial
+    -- was the sum of everything else); and it writes exactly those fields
+    let old ← hexN h; let b ← hexN newh
+    let n ← parseNats [p, l, sq, ak, fl, w]
+    match n with
+    | [p, l, sq, ak, fl, w] =>
+      if old.length < 20 then pure "ok" else
+      let w16 (x : Nat) : List Nat := [x / 256 % 256, x % 256]
+      let w32 (x : Nat) : List Nat := [x / 16777216 % 256, x / 65536 % 256, x / 256 % 256, x % 256]
+      let fields := (b.drop 4).take 4 == w32 sq && (b.drop 8).take 4 == w32 ak && b.getD 13 0 == fl % 256 &&
+        (b.drop 14).take 2 == w16 w && b.take 4 == old.take 4 && b.getD 12 0 == old.getD 12 0 && b.drop 18 == old.drop 18
+      let total := ocSum (w16 l ++ [0, fl % 256] ++ w32 sq ++ w32 ak ++ w16 w ++ (b.drop 16).take 2) (p % 65536)
+      pure (if !fields then "bad tcp-partial-fields" else chk (total == 65535) "tcp-partial-checksum")
+    | _ => none
   | ["tcpenc", _, sp, dp, sq, ak, d, fl, w, ck, u], [newh, gdo] =>
     let b ← hexN newh; let gdo ← gdo.toNat?
     let n ← parseNats [sp, dp, sq, ak, d, fl, w, ck, u]
